@@ -11,4 +11,4 @@ CONSTANTS
   Replays <- AllReplays
 INIT Init
 NEXT Next
-INVARIANTS TypeOK MonotoneLast CacheIsLastAccepted KnownIsPresented ReplaySourcedLast EmitHist
+INVARIANTS TypeOK MonotoneLast CacheIsLastAccepted KnownIsPresented ReplaySourcedLast CounterFloorSurvivesChurnLast EmitHist
